@@ -65,17 +65,22 @@ func Coeff(n, k int) int {
 }
 
 //Coeffs calculates all binomial coefficeints m choose k for 0 <= m <= n and k <= m/2.
+//Coeffs panics if one of them would overflow.
 func Coeffs(n int) [][]int {
 	coeffs := make([][]int, n+1)
 	for i := 0; i <= n; i++ {
 		tmp := make([]int, i/2+1)
 		tmp[0] = 1
 		for j := 1; j < i/2+1; j++ {
+			var overflow bool
 			if 2*j == i {
-				tmp[j] = 2 * coeffs[i-1][j-1]
-				continue
+				tmp[j], overflow = addHasOverflowed(coeffs[i-1][j-1], coeffs[i-1][j-1])
+			} else {
+				tmp[j], overflow = addHasOverflowed(coeffs[i-1][j-1], coeffs[i-1][j])
 			}
-			tmp[j] = coeffs[i-1][j-1] + coeffs[i-1][j]
+			if overflow {
+				panic("coeff does not fit in an int")
+			}
 		}
 		coeffs[i] = tmp
 	}
